@@ -1048,6 +1048,8 @@ class Interp:
         return out
 
     def e_BoolOp(self, e: ast.BoolOp, st: State):
+        if self.track_index:
+            return self._boolop_short_circuit(e, st)
         out = []
         for s, vals in self.eval_list(e.values, st):
             conds = [self.truth(s, v) for v in vals]
@@ -1056,6 +1058,38 @@ class Interp:
             for c2 in conds[1:]:
                 c = (tag, c, c2)
             out.append((s, bool_aff(c)))
+        return out
+
+    def _boolop_short_circuit(self, e: ast.BoolOp, st: State):
+        """`a and b` / `a or b` with Python's evaluation order: b is evaluated only in the states where a does not decide the result
+        (needed when every subscript evaluation is an obligation: `i < n and x[i] ...` never reads x[n])."""
+        is_and = isinstance(e.op, ast.And)
+        out: List[Tuple[State, Any]] = []
+
+        def rec(k: int, s: State) -> None:
+            for s2, v in self.eval(e.values[k], s):
+                c = self.truth(s2, v)
+                if k == len(e.values) - 1:
+                    out.append((s2, bool_aff(c)))
+                    continue
+                d = s2.facts.decide(c)
+                stop_when = False if is_and else True  # value of the operand that ends the evaluation
+                if d is not None:
+                    if d == stop_when:
+                        out.append((s2, K(1 if d else 0)))
+                    else:
+                        rec(k + 1, s2)
+                    continue
+                go = s2.fork()
+                go.facts.add(c if is_and else negate(c))
+                halt = s2
+                halt.facts.add(negate(c) if is_and else c)
+                if not halt.facts.infeasible():
+                    out.append((halt, K(0 if is_and else 1)))
+                if not go.facts.infeasible():
+                    rec(k + 1, go)
+
+        rec(0, st)
         return out
 
     def e_Compare(self, e: ast.Compare, st: State):
